@@ -104,6 +104,23 @@ def run(ctx):
         stats["targets"][j['tmode']] = stats["targets"].get(j['tmode'], 0) + 1
     tmpdir = tempfile.mkdtemp(prefix="verif_c19_")
     try:
+        # a fifth of the line-based jobs are delivered as a list of 3-5 files (the statements dealt out at random): the files must be
+        # read in the order given, whatever the process
+        for j in jobs:
+            if j['dk'] == 'nt' and rng.random() < 0.6:
+                lines_ = j['delivery']['text'].strip().split("\n")
+                k = rng.randint(3, 5)
+                parts = [[] for _ in range(k)]
+                for ln in lines_:
+                    parts[rng.randrange(k)].append(ln)
+                paths = []
+                for pi, part in enumerate(parts):
+                    pth = os.path.join(tmpdir, "%s_part%d_%s.nt" % (j['id'], pi, rng.choice(['a', 'zz', 'm'])))
+                    open(pth, "w").write("\n".join(part) + ("\n" if part else ""))
+                    paths.append(pth)
+                j['delivery'] = {'kind': 'files', 'paths': paths, 'text': j['delivery']['text']}
+                j['dk'] = 'files'
+                stats["delivery"]['files'] = stats["delivery"].get('files', 0) + 1
         jf = os.path.join(tmpdir, "jobs.json")
         json.dump(jobs, open(jf, "w"))
         procs = []
